@@ -4,6 +4,9 @@ from riolib.prov import Prov, show, mentions, mentions_field, walk
 from riolib.sym import Sym, for_loops
 from riolib.effects import effects, transitive_writes
 
+THOROUGH_CONFIGS = ['dot', 'compress']
+
+
 MANIFEST = {
     "text": "Static decision of the chunk-carrying mechanisms: the carry-over discipline of HtmlFilterBodyAction::filter (the tokenizer is fed held-back bytes followed by the new chunk; every path on which the tokenizer ran out of input stores, in input order, the pending text, the unfinished token and the unread remainder before returning; no other normal return); the resume-state typestate of the tokenizer (state written by one next() and read by a later one must be carried to the tokenizer of the next chunk); the executed-flag typestate of the text filters as decision tables; the end() chaining of the stage list. Invariance at every cut position for every document is a run-time fact of the tokenizer and is not decided.",
     "technique": "static analysis: must-pass-through and provenance of held-back bytes, inter-call state (field effect) typestate, decision tables over MIR",
